@@ -33,7 +33,7 @@ Progress == [][Measure' < Measure /\ Measure' >= 0]_vars
 \* ---- case generation from a scenario file
 Scen == ndJsonDeserialize(IOEnv.SCEN)
 ToSet(s) == {s[i] : i \in DOMAIN s}
-CaseInit ==
+CaseInitOf(h) ==
   /\ \E i \in DOMAIN Scen :
        LET s == Scen[i] IN
        /\ sid = s.id
@@ -43,9 +43,12 @@ CaseInit ==
        /\ opt = [filter |-> s.opt.filter, includeSlow |-> s.opt.includeSlow,
                  stopOnFail |-> s.opt.stopOnFail, failOnEmpty |-> s.opt.failOnEmpty]
   /\ xpassStops \in BOOLEAN /\ (~opt.stopOnFail => ~xpassStops)
-  /\ harness = [t \in Tests |-> "runs"]
+  /\ harness = [t \in Tests |-> h]
   /\ Start
-CaseSpec == CaseInit /\ [][MCNext]_mcvars
+CaseSpec == CaseInitOf("runs") /\ [][MCNext]_mcvars
+\* what the machine with an empty harness (the pinned tree) does in the same scenarios: used at development
+\* time to test the driver's classifier on every scenario of the pool (MC_TestRunner_cases_asis.cfg)
+CaseSpecAsIs == CaseInitOf("empty") /\ [][MCNext]_mcvars
 
 SeqOf(f) == [t \in Tests |-> f[t]]
 CaseHook == pc = "done" =>
